@@ -213,3 +213,87 @@ def npath_case(case: dict) -> dict:
             out["alt_out"] = ta
             out["altdefs"] = cha[2] if cha else 0
     return out
+
+
+# ---------------------------------------------------------------------------
+# C16: command line
+
+def _run_main(argv: list[str], stdin_text: str | None):
+    import contextlib
+    import io
+    import sys
+    from nix_manipulator.cli.main import main
+    out, err = io.StringIO(), io.StringIO()
+    old_in = sys.stdin
+    status: object
+    try:
+        if stdin_text is not None:
+            sys.stdin = io.StringIO(stdin_text)
+        with contextlib.redirect_stdout(out), contextlib.redirect_stderr(err):
+            try:
+                with time_limit(20):
+                    status = main(argv)
+            except SystemExit as e:
+                status = e.code if isinstance(e.code, int) else (0 if e.code is None else 1)
+            except BaseException as e:  # noqa: BLE001 - an uncaught exception is exit status 1 + traceback
+                if isinstance(e, KeyboardInterrupt):
+                    raise
+                status = 1
+                err.write(type(e).__name__)
+    finally:
+        sys.stdin = old_in
+    return out.getvalue(), status, err.getvalue()
+
+
+def cli_chain(case: dict) -> dict:
+    """A chain of invocations on one file; both channels per invocation; library called directly for reference."""
+    import os
+    import tempfile
+    from nix_manipulator.cli.manipulations import remove_value, set_value
+    from nix_manipulator.parser import parse
+    text = case["text"]
+    steps = []
+    d = tempfile.mkdtemp(prefix="nima-cli-")
+    path = os.path.join(d, "f.nix")
+    try:
+        for inv in case["chain"]:
+            st: dict = {"cmd": inv["cmd"], "input": text}
+            src = None
+            try:
+                with time_limit(20):
+                    src = parse(text)
+                    st["in_err"] = bool(src.contains_error)
+                    st["in_fix"] = (not src.contains_error) and src.rebuild() == text
+            except BaseException as e:  # noqa: BLE001
+                if isinstance(e, (KeyboardInterrupt, SystemExit)):
+                    raise
+                st["in_err"], st["in_fix"], st["parse_exc"] = False, False, type(e).__name__
+            if inv["cmd"] != "test":
+                try:
+                    with time_limit(20):
+                        s2 = parse(text)
+                        lib = set_value(s2, inv["npath"], inv["value"]) if inv["cmd"] == "set" else remove_value(s2, inv["npath"])
+                    st["lib_ok"], st["lib_text"] = True, lib
+                except BaseException as e:  # noqa: BLE001
+                    if isinstance(e, (KeyboardInterrupt, SystemExit)):
+                        raise
+                    st["lib_ok"], st["lib_exc"] = False, type(e).__name__
+            with open(path, "w", encoding="utf-8", newline="") as fh:
+                fh.write(text)
+            args = [inv["cmd"]] + ([inv["npath"]] if inv["cmd"] != "test" else []) + ([inv["value"]] if inv["cmd"] == "set" else [])
+            o1, s1, e1 = _run_main(args, text)
+            o2, s2_, e2 = _run_main(args + ["-f", path], None)
+            st.update({"stdout": o1, "status": s1, "stderr": e1[:200], "stdout_f": o2, "status_f": s2_})
+            if case.get("subprocess"):
+                import subprocess
+                import sys
+                p = subprocess.run([sys.executable, "-m", "nix_manipulator"] + args, input=text, capture_output=True,
+                                   text=True, timeout=60, env=dict(os.environ))
+                st.update({"sp_stdout": p.stdout, "sp_status": p.returncode})
+            steps.append(st)
+            if inv["cmd"] != "test" and s1 == 0 and inv.get("redirect", True):
+                text = o1          # `> file'
+    finally:
+        import shutil
+        shutil.rmtree(d, ignore_errors=True)
+    return {"steps": steps}
